@@ -82,7 +82,7 @@ class Out:
 
 
 def run_job(name, run, *, timeout_ms=60000, max_paths=20000, prune=True, prune_timeout_ms=3000,
-            twin=True, watch=(), second=False):
+            twin=True, watch=(), second=False, feas_timeout_ms=15000):
     """Explore all paths of `run(C) -> Out`, discharge definedness obligations, lemmas and
     claims per path. Returns a JSON-able dict."""
     t0 = time.time()
@@ -103,7 +103,7 @@ def run_job(name, run, *, timeout_ms=60000, max_paths=20000, prune=True, prune_t
             tag = f"{name}[p{pi}]"
             cons = solve.base_constraints(C)
             # reachability / vacuity twin: the path must be satisfiable
-            s = solve.mk_solver(timeout_ms)
+            s = solve.mk_solver(min(timeout_ms, feas_timeout_ms))
             s.add(*cons)
             ts = time.time()
             feas = str(s.check())
